@@ -1,0 +1,6 @@
+//go:build verif
+
+package eni
+
+// VerifParseResourceID exposes parseResourceID (legacy stored-record ids) to the verification harness.
+func VerifParseResourceID(id string) (string, string, error) { return parseResourceID(id) }
